@@ -44,7 +44,7 @@ def parseOption (U : Nat → Bool) (s : Bytes) : List Term := (splitOn 44 s).map
 def parseLine (U : Nat → Bool) (args : List Bytes) : Line := args.map (parseOption U)
 
 /-- `tags` selects `t`; android also selects linux. -/
-def sel (tags : Tags) (t : Bytes) : Bool := tags t || (t == linux && tags android)
+def sel (tags : Tags) (t : Bytes) : Bool := tags t || (decide (t = linux) && tags android)
 
 def evalTerm (tags : Tags) : Term → Bool
   | .bad => false
